@@ -1,4 +1,6 @@
 import ConjureVerif.Lemmas.Call
+import ConjureVerif.Gen.ServerModSrc
+import ConjureVerif.Gen.ServerConjureSrc
 import ConjureVerif.Lemmas.Endpoint
 import ConjureVerif.Lemmas.Body
 import ConjureVerif.Props.C19
@@ -225,6 +227,59 @@ theorem C04_return_roundtrip (p : Produces) (ret : Ret) (resp : Resp) (h : respo
   case binary.stream b => cases h; simp [clientDecode, clientKind, Body.decodeResponse]
   case optBinary.stream b => cases h; simp [clientDecode, clientKind, Body.decodeResponse]
   case optBinary.noStream => cases h; simp [clientDecode, clientKind, Body.decodeResponse]
+
+/-- the serializable response serializers: the encoding is the one the runtime negotiates from the request's `Accept`
+(C11), the body is written by that encoding's serializer and the `Content-Type` is that encoding's own; the
+collection serializer sends 204 for the empty value and otherwise defers to the standard one -/
+theorem gen_response_serializers :
+    Gen.ServerModSrc.hashes.lookup "EmptyResponseSerializer::serialize_inner" = some 2631475357265666008 /- "{letmutresponse=Response::new(body);*response.status_mut()=StatusCode::NO_CONTENT;Ok(response)}" -/ ∧
+    Gen.ServerModSrc.hashes.lookup "SerializeResponse<(),W> for EmptyResponseSerializer::serialize" = some 4411690840528284411 /- "{Self::serialize_inner(ResponseBody::Empty)}" -/ ∧
+    Gen.ServerModSrc.hashes.lookup "AsyncSerializeResponse<(),W> for EmptyResponseSerializer::serialize" = some 8947365739981416789 /- "{Self::serialize_inner(AsyncResponseBody::Empty)}" -/ ∧
+    Gen.ServerModSrc.hashes.lookup "StdResponseSerializer::serialize_inner" = some 6024535377672111628 /- "{letencoding=runtime.response_body_encoding(request_headers)?;letmutbody=vec![];value.erased_serialize(&mut*encoding.serializer(&mutbody).serializer()).map_err(Error::internal)?;letmutresponse=Response::new(make_body(body.into()));response.headers_mut().insert(CONTENT_TYPE,encoding.content_type());Ok(response)}" -/ ∧
+    Gen.ServerModSrc.hashes.lookup "SerializeResponse<T,W> for StdResponseSerializer::serialize" = some 12355384306275551661 /- "{Self::serialize_inner(runtime,request_headers,&value,ResponseBody::Fixed)}" -/ ∧
+    Gen.ServerModSrc.hashes.lookup "AsyncSerializeResponse<T,W> for StdResponseSerializer::serialize" = some 10021612588544366905 /- "{Self::serialize_inner(runtime,request_headers,&value,AsyncResponseBody::Fixed)}" -/ ∧
+    Gen.ServerConjureSrc.hashes.lookup "SerializeResponse<T,W> for CollectionResponseSerializer::serialize" = some 14348492882526632244 /- "{ifvalue==T::default(){<EmptyResponseSerializerasSerializeResponse<_,_>>::serialize(runtime,request_headers,(),)}else{<StdResponseSerializerasSerializeResponse<_,_>>::serialize(runtime,request_headers,value,)}}" -/ ∧
+    Gen.ServerConjureSrc.hashes.lookup "AsyncSerializeResponse<T,W> for CollectionResponseSerializer::serialize" = some 5846651114718490160 /- "{ifvalue==T::default(){<EmptyResponseSerializerasAsyncSerializeResponse<_,_>>::serialize(runtime,request_headers,(),)}else{<StdResponseSerializerasAsyncSerializeResponse<_,_>>::serialize(runtime,request_headers,value,)}}" -/ := by
+  decide +kernel
+
+/-- **whichever encoding the response is negotiated to**: under JSON the negotiated response is the one above; under
+either encoding the response is labelled with the content type of the encoding its body is written in, so a client
+that reads by Content-Type (with `parse e` the client deserializer of encoding `e`) gets back the handler's value,
+or the empty value for a 204 — for every chunking of the body -/
+theorem C04_return_roundtrip_negotiated (e : Enc) (p : Produces) (isDefault : Bool) (doc : Enc → Endpoint.Bytes)
+    (resp : Resp) (h : respondIn e p isDefault doc = some resp)
+    (bss : List (List Nat)) (hb : bss.flatten = resp.body) (parse : Enc → Endpoint.Bytes → Body.Parse) :
+    (e = .json → respond p (.value isDefault (doc .json)) = some resp) ∧
+    (resp.status204 = false → resp.ct = e.ct ∧ resp.body = doc e) ∧
+    readByCt resp (Body.oks bss) parse =
+      if p = .collection ∧ isDefault = true then .default_ else Body.ClientResult.ofParse (parse e (doc e)) := by
+  cases p <;> simp only [respondIn] at h
+  all_goals try (cases h; done)
+  case std =>
+    cases h
+    refine ⟨?_, ?_, ?_⟩
+    · intro he; subst he; rfl
+    · intro _; exact ⟨rfl, rfl⟩
+    · simp only at hb
+      cases e <;> simp [readByCt, Enc.ct, Body.ser_oks, hb]
+  case collection =>
+    cases isDefault
+    · simp only [Bool.false_eq_true, if_false, Option.some.injEq] at h; subst h
+      refine ⟨?_, ?_, ?_⟩
+      · intro he; subst he; rfl
+      · intro _; exact ⟨rfl, rfl⟩
+      · simp only at hb
+        cases e <;> simp [readByCt, Enc.ct, Body.ser_oks, hb]
+    · simp only [if_true, Option.some.injEq] at h; subst h
+      refine ⟨?_, ?_, ?_⟩
+      · intro he; subst he; rfl
+      · intro h'; cases h'
+      · simp [readByCt]
+
+/-- non-vacuity: a Smile-negotiated value and an empty collection -/
+example : respondIn .smile .std false (fun e => if e = .json then [49] else [58, 41, 10, 1, 194]) =
+    some { status204 := false, ct := .smile, body := [58, 41, 10, 1, 194] } := by decide
+example : respondIn .smile .collection true (fun _ => [91, 93]) = some { status204 := true, ct := .none, body := [] } := by decide
 
 /-! #### composition: the handler runs, once, on what the client sent -/
 
